@@ -418,6 +418,11 @@ func decodeKeyNotFound(b unsafe.Pointer, cursor int64) (int64, *structFieldSet, 
 }
 
 func decodeKey(d *structDecoder, buf []byte, cursor int64) (int64, *structFieldSet, error) {
+	// a member name is a string (the string decoder would also take null)
+	cursor = skipWhiteSpace(buf, cursor)
+	if buf[cursor] != '"' {
+		return 0, nil, errors.ErrExpected("string for object key", cursor)
+	}
 	key, c, err := d.stringDecoder.decodeByte(buf, cursor)
 	if err != nil {
 		return 0, nil, err
@@ -738,6 +743,10 @@ func decodeKeyNotFoundStream(s *Stream, start int64) (*structFieldSet, string, e
 }
 
 func decodeKeyStream(d *structDecoder, s *Stream) (*structFieldSet, string, error) {
+	// a member name is a string (the string decoder would also take null)
+	if s.skipWhiteSpace() != '"' {
+		return nil, "", errors.ErrExpected("string for object key", s.totalOffset())
+	}
 	key, err := d.stringDecoder.decodeStreamByte(s)
 	if err != nil {
 		return nil, "", err
